@@ -155,7 +155,8 @@ PROPS = {
                       "concurrency-relevant fact proved, under sequential consistency of attribute writes.",
         "units": [U('pyvc.frames', 'cook_publication_order', 'cook.publication_order'),
                   U('pyvc.frames', 'render_write_frame', 'render.write_frame'),
-                  U('pyvc.frames', 'instance_state', 'instance_state'), FRESH],
+                  U('pyvc.frames', 'instance_state', 'instance_state'),
+                  U('pyvc.frames', 'search_path_frame', 'search_path_frame'), FRESH],
         "not_decided": ["thread interleavings (schedule-quantified; no schedule exploration in this family)",
                         "cross-process identity of output (follows from alpha-equivalence of generated "
                         "code; not checked yet)"],
@@ -173,6 +174,7 @@ PROPS = {
                       "crash, not power loss. Interleavings of two writers follow from the same trace "
                       "facts plus rename atomicity (argument, not machine-checked).",
         "units": [U('pyvc.frames', 'digest_reads_frame', 'digest.reads_frame'),
+                  U('pyvc.frames', 'render_write_frame', 'render.write_frame'),
                   K("loader.py::ModuleLoader.build")],
         "not_decided": ["ModuleLoader.get/_load and _get_module_name (pending)",
                         "two-writer interleavings (schedule-quantified)"],
@@ -192,7 +194,8 @@ PROPS = {
                       "precondition. The @cache decorator of load (same args => same instance) is not "
                       "yet under contract.",
         "units": [K("template.py::BaseTemplateFile.cook_check"), K("loader.py::TemplateLoader.load"),
-                  U('pyvc.frames', 'search_path_frame', 'search_path_frame')],
+                  U('pyvc.frames', 'search_path_frame', 'search_path_frame'),
+                  U('pyvc.frames', 'render_write_frame', 'render.write_frame')],
         "not_decided": ["BaseTemplate.cook: macros of an earlier file version stay reachable "
                         "(Macros.names / macros['x']) -- see known findings / DESIGN D5",
                         "loader.cache decorator", "package-relative resolution"],
